@@ -66,6 +66,10 @@ pub struct PadCase {
     /// columns each, position `.1` of 100
     #[serde(default)]
     bar: Option<(bool, u8)>,
+    /// a TAB is inserted into the content at this character index and the bar has this tab width: the field is
+    /// measured, padded and cut with the TAB already expanded (contents without SGR only)
+    #[serde(default)]
+    tab: Option<(u8, u8)>,
 }
 
 /// `{bar:W}` is a field like any other: it occupies exactly W columns, and what the W/c cells of c
@@ -113,7 +117,17 @@ fn run_pad(c: &PadCase) -> CaseResult {
     if let Some((wide, pos)) = c.bar {
         return run_bar_field(c, wide, pos);
     }
-    let content = content_of(&c.chunks);
+    let raw = content_of(&c.chunks);
+    // (what the field receives, and what it has to show)
+    let (given, content, tab_width) = match c.tab {
+        Some((at, tw)) if !raw.contains('\u{1b}') => {
+            let i = raw.char_indices().map(|(i, _)| i).chain([raw.len()]).nth(at as usize % (raw.chars().count() + 1)).unwrap();
+            let g = format!("{}\t{}", &raw[..i], &raw[i..]);
+            let e = model::expand_tabs(&g, tw as usize % 13);
+            (g, e, Some(tw as usize % 13))
+        }
+        _ => (raw.clone(), raw.clone(), None),
+    };
     let key = match c.via {
         Via::Msg => "msg",
         Via::Prefix => "prefix",
@@ -132,11 +146,11 @@ fn run_pad(c: &PadCase) -> CaseResult {
     let style = catch(|| ProgressStyle::with_template(&template))
         .map_err(|p| Fail::new("panic", format!("with_template({template:?}) panicked: {p}")))?
         .map_err(|e| Fail::new("rejected", format!("with_template({template:?}) rejected: {e}")))?;
-    let content2 = content.clone();
+    let content2 = given.clone();
     let style = style.with_key("ck", move |_: &ProgressState, w: &mut dyn std::fmt::Write| {
         let _ = w.write_str(&content2);
     });
-    let setup = BarSetup { msg: content.clone(), prefix: content.clone(), cols: u16::MAX, rows: u16::MAX, ..Default::default() };
+    let setup = BarSetup { msg: given.clone(), prefix: given.clone(), cols: u16::MAX, rows: u16::MAX, tab_width, ..Default::default() };
     let lines = match render(style, &setup) {
         Ok(l) => l,
         Err(RenderErr::Panic(p)) => return Err(Fail::new("panic", format!("rendering {template:?} with content {content:?} panicked: {p}"))),
@@ -157,6 +171,8 @@ fn run_pad(c: &PadCase) -> CaseResult {
     let mut v = Verdict::default();
     classify(&mut v, &c.chunks, content_cols, c.width as usize, c.truncate);
     v.label_if(c.before.is_some(), "second_field_of_the_template");
+    v.label_if(tab_width.is_some(), "content_with_a_tab");
+    v.label_if(tab_width.is_some() && c.via == Via::Custom, "custom_key_writes_a_tab");
     Ok(v)
 }
 
@@ -178,9 +194,10 @@ fn pad_strategy() -> BoxedStrategy<PadCase> {
                 prop_oneof![3 => Just(Via::Msg), 1 => Just(Via::Prefix), 2 => Just(Via::Custom)],
                 proptest::option::weighted(0.3, (any::<u8>(), any::<bool>(), any::<bool>())),
                 proptest::option::weighted(0.12, (any::<bool>(), any::<u8>())),
+                proptest::option::weighted(0.2, (any::<u8>(), 0u8..13)),
             )
         })
-        .prop_map(|(chunks, width, align, truncate, via, before, bar)| PadCase { chunks, width, align, truncate, via, before, bar })
+        .prop_map(|(chunks, width, align, truncate, via, before, bar, tab)| PadCase { chunks, width, align, truncate, via, before, bar, tab })
         .boxed()
 }
 
@@ -202,6 +219,12 @@ pub struct WideCase {
     /// width is changed to `.2` and the tested frame is drawn
     #[serde(default)]
     tab: Option<(u8, u8, u8)>,
+    /// the bar is a member of a MultiProgress / an earlier frame was drawn while the terminal reported this
+    /// other width (the tested frame must be laid out for the width reported now)
+    #[serde(default)]
+    in_multi: bool,
+    #[serde(default)]
+    resized_from: Option<u16>,
 }
 
 fn run_wide(c: &WideCase) -> CaseResult {
@@ -232,7 +255,7 @@ fn run_wide(c: &WideCase) -> CaseResult {
     let style = catch(|| ProgressStyle::with_template(&template))
         .map_err(|p| Fail::new("panic", format!("with_template({template:?}) panicked: {p}")))?
         .map_err(|e| Fail::new("rejected", format!("with_template({template:?}) rejected: {e}")))?;
-    let mut setup = BarSetup { msg: msg.clone(), cols: c.term, rows: 500, ..Default::default() };
+    let mut setup = BarSetup { msg: msg.clone(), cols: c.term, rows: 500, in_multi: c.in_multi, resized_from: c.resized_from, ..Default::default() };
     if let (true, Some((_, w1, w2))) = (tabbed, c.tab) {
         setup.tab_width = Some(w1 as usize % 17);
         setup.retab = Some(w2 as usize % 17);
@@ -282,6 +305,7 @@ fn run_wide(c: &WideCase) -> CaseResult {
     v.label_if(c.right.is_empty(), "wide_msg_last");
     v.label_if(c.line_before.is_some(), "second_line_of_a_template_with_another_wide_element");
     v.label_if(tabbed, "tab_width_changed_between_two_draws");
+    v.label_if(c.in_multi && c.resized_from.map_or(false, |w| w != c.term), "member_of_a_multi_progress_after_the_terminal_was_resized");
     Ok(v)
 }
 
@@ -294,8 +318,10 @@ fn wide_strategy() -> BoxedStrategy<WideCase> {
         proptest::option::weighted(0.4, prop_oneof![Just(Align::Left), Just(Align::Center), Just(Align::Right)]),
         proptest::option::weighted(0.3, 0u8..3),
         proptest::option::weighted(0.25, (any::<u8>(), 0u8..17, 0u8..17)),
+        proptest::bool::weighted(0.3),
+        proptest::option::weighted(0.3, 1u16..200),
     )
-        .prop_map(|(chunks, term, left, right, align, line_before, tab)| WideCase { chunks, term, left, right, align, line_before, tab })
+        .prop_map(|(chunks, term, left, right, align, line_before, tab, in_multi, resized_from)| WideCase { chunks, term, left, right, align, line_before, tab, in_multi, resized_from })
         .boxed()
 }
 
@@ -319,12 +345,12 @@ fn decode_pad(u: &mut FuzzInput) -> PadCase {
         8 => u.u16() as u32,
         _ => [0u32, 1, 255, 256, 65535][u.n(4)],
     };
-    PadCase { chunks, width, align: [None, Some(Align::Left), Some(Align::Center), Some(Align::Right)][u.n(3)], truncate: u.bool(), via: [Via::Msg, Via::Prefix, Via::Custom][u.n(2)], before: if u.n(3) == 0 { Some((u.u8(), u.bool(), u.bool())) } else { None }, bar: if u.n(7) == 0 { Some((u.bool(), u.u8())) } else { None } }
+    PadCase { chunks, width, align: [None, Some(Align::Left), Some(Align::Center), Some(Align::Right)][u.n(3)], truncate: u.bool(), via: [Via::Msg, Via::Prefix, Via::Custom][u.n(2)], before: if u.n(3) == 0 { Some((u.u8(), u.bool(), u.bool())) } else { None }, bar: if u.n(7) == 0 { Some((u.bool(), u.u8())) } else { None }, tab: if u.n(5) == 0 { Some((u.u8(), u.n(12) as u8)) } else { None } }
 }
 
 fn decode_wide(u: &mut FuzzInput) -> WideCase {
     let lit = |u: &mut FuzzInput, max: usize| -> String { (0..u.n(max)).map(|_| u.pick(&['a', ':', '[', ']', ' ', '\u{e9}', '\u{4e16}'])).collect() };
-    WideCase { chunks: decode_chunks(u), term: 1 + u.n(99) as u16, left: lit(u, 6), right: lit(u, 4), align: [None, None, Some(Align::Left), Some(Align::Center), Some(Align::Right)][u.n(4)], line_before: if u.n(3) == 0 { Some(u.n(2) as u8) } else { None }, tab: if u.n(3) == 0 { Some((u.u8(), u.n(16) as u8, u.n(16) as u8)) } else { None } }
+    WideCase { chunks: decode_chunks(u), term: 1 + u.n(99) as u16, left: lit(u, 6), right: lit(u, 4), align: [None, None, Some(Align::Left), Some(Align::Center), Some(Align::Right)][u.n(4)], line_before: if u.n(3) == 0 { Some(u.n(2) as u8) } else { None }, tab: if u.n(3) == 0 { Some((u.u8(), u.n(16) as u8, u.n(16) as u8)) } else { None }, in_multi: u.n(3) == 0, resized_from: if u.n(3) == 0 { Some(1 + u.n(150) as u16) } else { None } }
 }
 
 pub fn property() -> Property {
@@ -337,7 +363,7 @@ pub fn property() -> Property {
             "centre alignment: the odd column / the window may sit on either side",
             "escape sequences kept by a truncation are not prescribed, only that they are intact, from the content and in order",
             "wide_msg at the very end of a line may trim its trailing padding (documented behaviour of the crate: no trailing whitespace)",
-            "contents without combining marks, TAB or newlines",
+            "contents without combining marks or newlines; a TAB only in contents without SGR sequences",
         ],
         parts: vec![
             Box::new(Gen::<PadCase> {
@@ -347,7 +373,7 @@ pub fn property() -> Property {
                 cases: |t| t.pick(36_000, 2_000_000),
                 run: run_pad,
                 signature: no_signature,
-                essential: &["truncation_path", "truncation_non_ascii_or_sgr", "padding_path", "overflow_unshortened", "double_width", "sgr", "second_field_of_the_template", "bar_key_as_field", "bar_cells_leave_a_column_over"],
+                essential: &["truncation_path", "truncation_non_ascii_or_sgr", "padding_path", "overflow_unshortened", "double_width", "sgr", "second_field_of_the_template", "bar_key_as_field", "bar_cells_leave_a_column_over", "content_with_a_tab", "custom_key_writes_a_tab"],
                 workers: w,
                 decode: Some(decode_pad),
             }),
@@ -358,7 +384,7 @@ pub fn property() -> Property {
                 cases: |t| t.pick(24_000, 1_200_000),
                 run: run_wide,
                 signature: no_signature,
-                essential: &["truncation_path", "truncation_non_ascii_or_sgr", "padding_path", "rest_does_not_fit", "wide_msg_last"],
+                essential: &["truncation_path", "truncation_non_ascii_or_sgr", "padding_path", "rest_does_not_fit", "wide_msg_last", "member_of_a_multi_progress_after_the_terminal_was_resized"],
                 workers: w,
                 decode: Some(decode_wide),
             }),
